@@ -871,3 +871,13 @@ Proof.
   rewrite nthq_map by (rewrite gh_per_ha_length; exact Hm).
   unfold gh_kcals_per_ha_grown. cbv zeta. rewrite tab_nth by exact Hm. rewrite !Qred_correct. ring.
 Qed.
+
+(* ---------------------------------------------------------------- seaweed growth factors *)
+Lemma seaweed_growth_length : forall n daily, List.length (seaweed_growth n daily) = Nat.min n (List.length daily).
+Proof. intros. unfold seaweed_growth. rewrite firstn_length, map_length. reflexivity. Qed.
+
+Lemma seaweed_growth_nth : forall n daily m, (m < n)%nat -> (m < List.length daily)%nat ->
+  nthq (seaweed_growth n daily) m = growth_factor (nthq daily m).
+Proof.
+  intros n daily m Hn Hl. unfold seaweed_growth. rewrite nthq_firstn by exact Hn. apply nthq_map. exact Hl.
+Qed.
